@@ -86,12 +86,12 @@ theorem discrete_ops_eq_export_ops (hdw : DwAligned p ms) :
 /-- the hypothesis of the two theorems holds for the masks the features calculators report on
 every supported program -/
 theorem dwAligned_of_supported (l : List ℕ) (α : ℕ → List Rat) (hl : computeLabels p = some l)
-    (hws : wellShaped p = true) (hsup : supported p = true) (hne : noExcluded p = true) :
+    (hws : wellShaped p = true) (hsup : supported p = true) :
     DwAligned p (aliveMasks p l α) := by
   intro n s a hop
   by_cases hn : n < p.length
   · have hop' : p[n] = .dw s a := by rw [← getOp_eq p n hn]; exact hop
-    have := C09.depthwise_follows_input p l α hl hws hsup hne n s a hn hop'
+    have := C09.depthwise_follows_input p l α hl hws hsup n s a hn hop'
     unfold inMask; rw [hop]; simp only [Op.inputs, List.headD_cons]; rw [this]
   · unfold getOp at hop
     rw [List.getD_eq_getElem?_getD, List.getElem?_eq_none (by omega)] at hop
